@@ -12,6 +12,7 @@
 (*  matrix   the full conversion matrix of one quantity type               *)
 (*  temp     the temperature conversions, round trips and two-step paths   *)
 (*  cross    one row of the accept/refuse matrix over all unit strings     *)
+(*  array    one array-valued argument reused for several conversions      *)
 (*  unit .. entry .. const .. R .. kb .. h .. c .. acc                     *)
 (*           the "tables" trace: st accumulates the units (their factor    *)
 (*           from the SI unit, the written precision of their tabulated    *)
@@ -148,6 +149,34 @@ CrossClauses(e) ==
          THEN {} ELSE {"UnknownUnitRefused"})
    \cup (IF \A i \in Ix : (e.utype # "" /\ e.utype = e.vtypes[i]) => ~e.refused[i]
          THEN {} ELSE {"EveryTypedUnitAccepted"})
+
+\* ------------------------------------------------------------------ array-valued arguments
+\* One probe: a container X (float64 array, int64 array or list; e.kind) holding e.x is passed
+\* to convert_unit three times, and the first result y1 is itself reused twice:
+\*   y1 = conv(X, a->b)   y2 = conv(X, a->w)   y0 = conv(X, a->a)     e.after[k] = X after call k
+\*   y3 = conv(y1, b->w)  y4 = conv(y1, b->a)                         e.y1after = y1 after both
+\*   s1[i] = conv(x[i], a->b), s2[i] = conv(x[i], a->w) with scalar arguments.
+\* All values are Dec2 (17 digits).  A python list the function refuses (e.raised) is only
+\* required to be left untouched (num is documented as float; refusing a container keeps the property).
+SeqEq2(p, q) == Len(p) = Len(q) /\ \A i \in 1..Len(p) : Equal2(p[i], q[i])
+SeqClose2(p, q) == Len(p) = Len(q) /\ \A i \in 1..Len(p) : Close2(p[i], q[i], 13)
+ArrClose(e, p, q, S) == IF e.type = "temp" THEN TClose(p, q, S) ELSE Close(p, q, 7)
+ArrayClauses(e) ==
+   IF e.raised
+   THEN (IF \A k \in 1..Len(e.after) : SeqEq2(e.x, e.after[k]) THEN {} ELSE {"InputUntouched"})
+        \* `num` is documented as float: a container the function refuses is only required to be untouched
+   ELSE
+   LET N == 1..Len(e.x) IN
+   (IF (\A k \in 1..Len(e.after) : SeqEq2(e.x, e.after[k])) /\ SeqEq2(e.y1, e.y1after)
+    THEN {} ELSE {"InputUntouched"})
+   \cup (IF SeqClose2(e.y1, e.s1) /\ SeqClose2(e.y2, e.s2) /\ SeqClose2(e.y0, e.x)
+         THEN {} ELSE {"ArrayIsMapOfScalar"})
+   \cup (IF Len(e.y3) = Len(e.x) /\ Len(e.y2) = Len(e.x)
+            /\ \A i \in N : ArrClose(e, ToDec(e.y3[i]), ToDec(e.y2[i]), {ToDec(e.y1[i]), ToDec(e.x[i])})
+         THEN {} ELSE {"ArrayTransitive"})
+   \cup (IF Len(e.y4) = Len(e.x)
+            /\ \A i \in N : ArrClose(e, ToDec(e.y4[i]), ToDec(e.x[i]), {ToDec(e.y1[i])})
+         THEN {} ELSE {"ArrayInverse"})
 
 \* ------------------------------------------------------------------ tables trace: units
 DocType(h) == IF h = "temperature" THEN "temp" ELSE h
@@ -363,6 +392,7 @@ Clauses(e) ==
    CASE e.ev = "matrix" -> MatrixClauses(e)
      [] e.ev = "temp" -> TempClauses(e)
      [] e.ev = "cross" -> CrossClauses(e)
+     [] e.ev = "array" -> ArrayClauses(e)
      [] e.ev = "unit" -> UnitClauses(e)
      [] e.ev = "entry" -> EntryClauses(e)
      [] e.ev = "const" -> IF WitnessesOK(e.lits) THEN {} ELSE {"MachineryWitness"}
